@@ -189,6 +189,15 @@ class ScriptReader:
 
     async def read(self, n=-1):
         self.reads += 1
+        if n is None or n < 0:
+            # StreamReader.read(-1): everything until end of stream
+            out = self.buf
+            self.buf = b""
+            while True:
+                item = await self._next_item()
+                if item is None:
+                    return out
+                out += item
         if not self.buf:
             item = await self._next_item()
             if item is None:
